@@ -102,6 +102,18 @@ def _job(args):
                 return (kind, spec['id'], 'detected', ','.join(hit))
             return (kind, spec['id'], 'MISSED', 'expected %s, reported %s' % (
                 spec['expect'], sorted({f[0] for f in found})))
+        elif kind == 'refactoring':
+            import subprocess
+            p = subprocess.run(
+                ['git', 'apply', os.path.join(VERIF, 'refactorings',
+                                              spec['id'], 'patch.diff')],
+                cwd=d, capture_output=True, text=True)
+            if p.returncode:
+                return ('silent', spec['id'], 'skipped',
+                        'patch does not apply to this tree')
+            found = _run_rules(pid, d)
+            return ('silent', spec['id'], 'findings', sorted(
+                {f[0] + ' | ' + f[1] for f in found}))
         else:
             import selftest.silent as sl
             why = sl.apply(spec, d)
@@ -137,9 +149,15 @@ def run_for_property(pid, report, jobs=16, seed=0, repo=None, strict=None,
         exp = meta.get('detected_by', {}).get(pid)
         if exp:
             seeds.append({'id': sid, 'expect': exp})
+    refs = []
+    rd = os.path.join(VERIF, 'refactorings')
+    for rid in sorted(os.listdir(rd)) if os.path.isdir(rd) else []:
+        if os.path.exists(os.path.join(rd, rid, 'patch.diff')):
+            refs.append({'id': rid})
     work = [('mutant', m, repo, pid) for m in mine] + \
            [('seed', x, repo, pid) for x in seeds] + \
-           [('silent', s, repo, pid) for s in silent]
+           [('silent', s, repo, pid) for s in silent] + \
+           [('refactoring', r, repo, pid) for r in refs]
     if not work:
         return
     with multiprocessing.Pool(min(jobs, len(work))) as pool:
@@ -184,7 +202,9 @@ def run_for_property(pid, report, jobs=16, seed=0, repo=None, strict=None,
     report.extra['selftest'] = {
         'must_fire_total': len(mine) + len(seeds),
         'seeded_changes': len(seeds), 'detected': det, 'missed': miss,
-        'skipped': skip, 'errors': err, 'silent_total': len(silent),
+        'skipped': skip, 'errors': err,
+        'silent_total': len(silent) + len(refs),
+        'realistic_refactorings': len(refs),
         'silent_unchanged': sil_ok, 'silent_changed': sil_bad,
         'rows': rows}
     if strict is None:
